@@ -445,6 +445,30 @@ impl AnyReader {
         with_r!(self, r => read_code_on(r, code, tab))
     }
 
+    /// The trait's default `copy_to`, reached through a pass-through reader.
+    pub fn copy_to_default(&mut self, w: &mut AnyWriter, n: u64) -> Result<(), String> {
+        macro_rules! cp {
+            ($E:ty, $r:ident, $($wv:ident),*) => {
+                match w {
+                    $(AnyWriter::$wv(ww) => BitRead::<$E>::copy_to(&mut PassR($r), ww, n).map_err(|e| format!("{}", e)),)*
+                    _ => panic!("harness error: endianness mismatch in copy_to"),
+                }
+            };
+        }
+        match self {
+            AnyReader::Be8(r) => cp!(BE, r, Be8, Be16, Be32, Be64, Be128),
+            AnyReader::Be16(r) => cp!(BE, r, Be8, Be16, Be32, Be64, Be128),
+            AnyReader::Be32(r) => cp!(BE, r, Be8, Be16, Be32, Be64, Be128),
+            AnyReader::Be64(r) => cp!(BE, r, Be8, Be16, Be32, Be64, Be128),
+            AnyReader::BeU(r) => cp!(BE, r, Be8, Be16, Be32, Be64, Be128),
+            AnyReader::Le8(r) => cp!(LE, r, Le8, Le16, Le32, Le64, Le128),
+            AnyReader::Le16(r) => cp!(LE, r, Le8, Le16, Le32, Le64, Le128),
+            AnyReader::Le32(r) => cp!(LE, r, Le8, Le16, Le32, Le64, Le128),
+            AnyReader::Le64(r) => cp!(LE, r, Le8, Le16, Le32, Le64, Le128),
+            AnyReader::LeU(r) => cp!(LE, r, Le8, Le16, Le32, Le64, Le128),
+        }
+    }
+
     /// copy_to a writer of the same endianness (panics on mismatch: harness bug).
     pub fn copy_to(&mut self, w: &mut AnyWriter, n: u64) -> Result<(), String> {
         macro_rules! cp {
@@ -467,6 +491,44 @@ impl AnyReader {
             AnyReader::Le64(r) => cp!(r, Le8, Le16, Le32, Le64, Le128),
             AnyReader::LeU(r) => cp!(r, Le8, Le16, Le32, Le64, Le128),
         }
+    }
+}
+
+/// Pass-through wrappers standing for user-defined readers / writers: they forward the
+/// required methods and inherit the traits' DEFAULT `copy_to` / `copy_from`.
+pub struct PassR<'a, T>(pub &'a mut T);
+pub struct PassW<'a, T>(pub &'a mut T);
+
+impl<E: Endianness, T: BitRead<E>> BitRead<E> for PassR<'_, T> {
+    type Error = T::Error;
+    type PeekWord = T::PeekWord;
+    fn read_bits(&mut self, n: usize) -> Result<u64, Self::Error> {
+        self.0.read_bits(n)
+    }
+    fn peek_bits(&mut self, n: usize) -> Result<Self::PeekWord, Self::Error> {
+        self.0.peek_bits(n)
+    }
+    fn skip_bits(&mut self, n: usize) -> Result<(), Self::Error> {
+        self.0.skip_bits(n)
+    }
+    fn skip_bits_after_peek(&mut self, n: usize) {
+        self.0.skip_bits_after_peek(n)
+    }
+    fn read_unary(&mut self) -> Result<u64, Self::Error> {
+        self.0.read_unary()
+    }
+}
+
+impl<E: Endianness, T: BitWrite<E>> BitWrite<E> for PassW<'_, T> {
+    type Error = T::Error;
+    fn write_bits(&mut self, value: u64, n: usize) -> Result<usize, Self::Error> {
+        self.0.write_bits(value, n)
+    }
+    fn write_unary(&mut self, value: u64) -> Result<usize, Self::Error> {
+        self.0.write_unary(value)
+    }
+    fn flush(&mut self) -> Result<usize, Self::Error> {
+        self.0.flush()
     }
 }
 
@@ -721,6 +783,30 @@ impl AnyWriter {
     /// that would make Drop panic).
     pub fn forget(self) {
         std::mem::forget(self)
+    }
+
+    /// The trait's default `copy_from`, reached through a pass-through writer.
+    pub fn copy_from_default(&mut self, r: &mut AnyReader, n: u64) -> Result<(), String> {
+        macro_rules! cf {
+            ($E:ty, $w:ident, $($rv:ident),*) => {
+                match r {
+                    $(AnyReader::$rv(rr) => BitWrite::<$E>::copy_from(&mut PassW($w), rr, n).map_err(|e| format!("{}", e)),)*
+                    _ => panic!("harness error: endianness mismatch in copy_from"),
+                }
+            };
+        }
+        match self {
+            AnyWriter::Be8(w) => cf!(BE, w, Be8, Be16, Be32, Be64, BeU),
+            AnyWriter::Be16(w) => cf!(BE, w, Be8, Be16, Be32, Be64, BeU),
+            AnyWriter::Be32(w) => cf!(BE, w, Be8, Be16, Be32, Be64, BeU),
+            AnyWriter::Be64(w) => cf!(BE, w, Be8, Be16, Be32, Be64, BeU),
+            AnyWriter::Be128(w) => cf!(BE, w, Be8, Be16, Be32, Be64, BeU),
+            AnyWriter::Le8(w) => cf!(LE, w, Le8, Le16, Le32, Le64, LeU),
+            AnyWriter::Le16(w) => cf!(LE, w, Le8, Le16, Le32, Le64, LeU),
+            AnyWriter::Le32(w) => cf!(LE, w, Le8, Le16, Le32, Le64, LeU),
+            AnyWriter::Le64(w) => cf!(LE, w, Le8, Le16, Le32, Le64, LeU),
+            AnyWriter::Le128(w) => cf!(LE, w, Le8, Le16, Le32, Le64, LeU),
+        }
     }
 
     pub fn copy_from(&mut self, r: &mut AnyReader, n: u64) -> Result<(), String> {
